@@ -120,10 +120,10 @@ variable {d : StructDef} {vs : List (String × Val)}
 
 theorem okStruct_fields (h : okStruct S r g d vs = true) :
     (∀ f ∈ d.fields, admCond r d vs f = true ∧ admMember g vs f = true) ∧
-    admUnionsFrom r d vs [] d.fields = true ∧ admDisc S d vs = true := by
+    admUnionsFrom r d vs [] d.fields = true := by
   unfold okStruct at h
   simp only [Bool.and_eq_true, List.all_eq_true] at h
-  exact ⟨h.1.1, h.1.2, h.2⟩
+  exact h
 
 /-- a concrete struct class: size law and round trip -/
 theorem concrete_law (hr : RecOk S g r) {name : String} (hwfd : WfStruct S name d)
@@ -362,7 +362,9 @@ theorem step_law (hwf : WF S = true) (hr : RecOk S g r) : (stepRec S T r).LawOn 
             simp only [hfc, hna, Bool.false_eq_true, if_false] at he hok ⊢
             by_cases hshape : shapeOk dc vs = true
             · simp only [hshape, if_true] at he
-              obtain ⟨hadm, hun, hdisc⟩ := okStruct_fields hok
+              simp only [Bool.and_eq_true] at hok
+              obtain ⟨hok, hdisc⟩ := hok
+              obtain ⟨hadm, hun⟩ := okStruct_fields hok
               have hcl := concrete_law hr hwc hshape hadm hun he vty
               have hne : (vty == ty) = false := by
                 simp only [beq_eq_false_iff_ne, ne_eq]
@@ -406,7 +408,7 @@ theorem step_law (hwf : WF S = true) (hr : RecOk S g r) : (stepRec S T r).LawOn 
           · rename_i hc
             simp only [Bool.and_eq_true, beq_iff_eq] at hc
             obtain ⟨rfl, hshape⟩ := hc
-            obtain ⟨hadm, hun, -⟩ := okStruct_fields hok
+            obtain ⟨hadm, hun⟩ := okStruct_fields hok
             have hcl := concrete_law hr hwd hshape hadm hun he vty
             simp only [beq_self_eq_true, if_true]
             exact hcl
